@@ -479,7 +479,11 @@ def run_C(case):
         T_all = np.concatenate([vals[2 * j].reshape(-1) for j in range(len(tags))])
         V_all = np.concatenate([vals[2 * j + 1].reshape(dim, -1) for j in range(len(tags))], axis=1)
         # all samples must be values of ONE spline of degree d on the control-grid knots
-        A = design(list(xi_phys), d, np.clip(T_all, xi_phys[0], xi_phys[-1])).T
+        # snap times that are knots up to round-off onto the knots (a degree-0 spline is discontinuous there)
+        T_snap = T_all.copy()
+        for kn in xi_phys:
+            T_snap[np.abs(T_snap - kn) < 1e-9 * (1 + abs(kn))] = kn
+        A = design(list(xi_phys), d, np.clip(T_snap, xi_phys[0], xi_phys[-1])).T
         worst = 0.0
         for row in V_all:
             coef, *_ = np.linalg.lstsq(A, row, rcond=None)
